@@ -23,7 +23,7 @@
 //!          `known <fmt> <path> found|missing`, `addr <fmt> <path> <rel> same:<fn>|differs:<got>:<want>|not-found|none|nofile`
 //!
 //! All strings are hex-encoded UTF-8 (`-` = empty); the per-case temporary directory is printed as `$D`.
-use std::collections::{BTreeMap, BTreeSet, HashMap};
+use std::collections::{BTreeMap, BTreeSet};
 use std::io::{BufRead, BufReader, Read, Write};
 use std::path::{Path, PathBuf};
 use std::process::{Child, Command, Stdio};
@@ -1433,6 +1433,5 @@ impl Prop for C19 {
 }
 
 fn main() {
-    let _ = HashMap::<u8, u8>::new();
     verif_harness::runner::run_main(&C19);
 }
